@@ -47,6 +47,8 @@ class Ep:
         self.seen_in = set()      # system ids used by inbound messages
         self.seen_out = set()     # system ids chosen by the endpoint
         self.last_select_req = None
+        self.last_app_req = None
+        self.app_replies = []
         self._next_sys = 1000
 
     def _on_msg(self, data):
@@ -79,6 +81,8 @@ class Ep:
             st = link.STYPE.get(f["stype"], f"stype{f['stype']}")
             if st == "Select.req":
                 self.last_select_req = x
+            if st == "Data" and sysc == "fresh":
+                self.last_app_req = x
             rec = {"st": st, "sys": sysc, "reason": f["b3"] if st == "Reject.req" else 0}
             if st == "Data":
                 rec.update({"s": f["s"], "f": f["f"], "w": f["w"]})
@@ -105,6 +109,7 @@ def e37_step(sched, ep: Ep, inp, t6):
     inbound_sys = None
     ev0 = len(ep.events)
     d0 = len(ep.delivered)
+    r0 = len(ep.app_replies)
     if k == "Enable":
         ep.protocol.enable()
     elif k == "Disable":
@@ -115,6 +120,23 @@ def e37_step(sched, ep: Ep, inp, t6):
         ep.link.peer_close()
     elif k == "WaitT6":
         sched.advance(t6 + 0.25)
+    elif k == "WaitT3":
+        sched.advance(ep.protocol._settings.timeouts.t3 + 1.0)
+    elif k == "AppRequest":
+        import secsgem.secs.functions as sf
+
+        def app(ep=ep):
+            rsp = ep.protocol.send_and_waitfor_response(sf.SecsS01F01())
+            if rsp is not None:
+                ep.app_replies.append(rsp.header.system)
+
+        simrt.Thread(target=app, name="app_request").start()
+    elif k == "DataFor":
+        inbound_sys = ep.last_app_req if inp["sys"] == "opendata" else ep.last_select_req
+        if inbound_sys is None:
+            inbound_sys = ep.fresh_sys()
+        ep.seen_in.add(inbound_sys)
+        ep.link.feed(link.hsms_frame(stype=0, system=inbound_sys, session=0, stream=1, function=2, wbit=False, body=b"\x01\x00"))
     elif k == "Ctrl":
         st = STNUM[inp["st"]]
         if inp["sys"] == "open":
@@ -138,6 +160,7 @@ def e37_step(sched, ep: Ep, inp, t6):
     return {"frames": frames, "ev": [e for e in ep.events[ev0:] if e in ("connected", "communicating", "disconnected")],
             "dlv": len([d for d in dl if d["system"] == inbound_sys]) if inbound_sys is not None else len(dl),
             "dlv_other": len([d for d in dl if d["system"] != inbound_sys]) if inbound_sys is not None else 0,
+            "rep": len(ep.app_replies) - r0,
             "cs": ep.cs}
 
 
